@@ -664,9 +664,18 @@ func validateV2Siacoins(ms *MidState, txn types.V2Transaction) error {
 		}
 	}
 
+	// NOTE: the input side is not covered by validateV2CurrencyOverflow (and the
+	// claimed value of an ephemeral parent is not verified below the ephemeral
+	// output hardfork height), so it cannot be summed with the panicking Add
 	var inputSum, outputSum types.Currency
+	var overflow bool
+	addInput := func(c types.Currency) {
+		if !overflow {
+			inputSum, overflow = inputSum.AddWithOverflow(c)
+		}
+	}
 	for _, sci := range txn.SiacoinInputs {
-		inputSum = inputSum.Add(sci.Parent.SiacoinOutput.Value)
+		addInput(sci.Parent.SiacoinOutput.Value)
 	}
 	for i, out := range txn.SiacoinOutputs {
 		if out.Value.IsZero() {
@@ -681,15 +690,17 @@ func validateV2Siacoins(ms *MidState, txn types.V2Transaction) error {
 		if r, ok := fcr.Resolution.(*types.V2FileContractRenewal); ok {
 			// a renewal creates a new contract, optionally "rolling over" funds
 			// from the old contract
-			inputSum = inputSum.Add(r.RenterRollover)
-			inputSum = inputSum.Add(r.HostRollover)
+			addInput(r.RenterRollover)
+			addInput(r.HostRollover)
 
 			rev := r.NewContract
 			outputSum = outputSum.Add(rev.RenterOutput.Value).Add(rev.HostOutput.Value).Add(ms.base.V2FileContractTax(rev))
 		}
 	}
 	outputSum = outputSum.Add(txn.MinerFee)
-	if inputSum != outputSum {
+	if overflow {
+		return errors.New("siacoin inputs overflow")
+	} else if inputSum != outputSum {
 		return fmt.Errorf("siacoin inputs (%v) do not equal outputs (%v)", inputSum, outputSum)
 	}
 
